@@ -5,3 +5,4 @@ pub mod clock;
 pub mod strategy;
 pub mod cksum;
 pub mod ext;
+pub mod conc;
